@@ -98,6 +98,8 @@ pub struct Sub {
     /// struct id -> (creator node, index among the creator's structs)
     sp_owner: BTreeMap<u64, (u8, u32)>,
     pub sp_spec_state: BTreeMap<u64, bool>,
+    /// (ingredient, key id) of a memo -> interned ids its last execution used
+    pub int_reads: BTreeMap<(String, u64), Vec<u64>>,
     pub taint_spec_switch: bool,
 }
 
@@ -107,7 +109,7 @@ fn starts_revision(op: &Op) -> bool {
 
 impl Sub {
     pub fn new(_flags: &Flags, _prog: &Program) -> Sub {
-        Sub { lru: LruModel { cap: 2, ..Default::default() }, ident: Default::default(), intern: Default::default(), prog: _prog.clone(), node_keys: Vec::new(), sp_owner: BTreeMap::new(), sp_spec_state: BTreeMap::new(), taint_spec_switch: false }
+        Sub { lru: LruModel { cap: 2, ..Default::default() }, ident: Default::default(), intern: Default::default(), prog: _prog.clone(), node_keys: Vec::new(), sp_owner: BTreeMap::new(), sp_spec_state: BTreeMap::new(), taint_spec_switch: false, int_reads: BTreeMap::new() }
     }
 
     #[allow(clippy::too_many_arguments)]
@@ -344,6 +346,27 @@ impl Sub {
                     stack.pop();
                 }
                 Rec::Ev { k: EvK::DidReuseInterned, key: Some(k), .. } => pending_reuse.push(k.id),
+                Rec::Ev { k: EvK::DidValidateMemo, key: Some(k), .. } => {
+                    // a function depending on an interned value was revalidated: that counts as
+                    // a use of the value in this revision, whatever events salsa emits
+                    if let Some(ids) = self.int_reads.get(&(format!("{:?}", k.ing), k.id)) {
+                        for id in ids {
+                            if let Some(e) = m.info.get_mut(id) {
+                                // only if the value still occupies its slot
+                                let slot = (*id & 0xFFFF_FFFF) as u32;
+                                if m.slot.get(&slot) == Some(id) {
+                                    e.3 = rev;
+                                    let ty = e.0;
+                                    let u = m.used.entry(ty).or_default();
+                                    if u.last() != Some(&rev) {
+                                        u.push(rev);
+                                    }
+                                    stats.bump("interned_values_revalidated_through_dependents", 1);
+                                }
+                            }
+                        }
+                    }
+                }
                 Rec::Ev { k: EvK::DidValidateInterned, key: Some(k), .. } => {
                     if let Some(e) = m.info.get_mut(&k.id) {
                         e.3 = rev;
